@@ -57,20 +57,26 @@ Theorem C05_restorer_map_refuted :
 Proof. split; [exact restorer_map_not_ok|]. repeat split; vm_compute; reflexivity. Qed.
 
 (* ---------- proved ---------- *)
-(* PARTIAL: of C05_statement_for the following is proved: rotate, unroll, concatenate, factor preserve the meaning of every
-   valid grammar; the lister does wherever it does not fire.  Not yet theorems: skip (pass 1), the pipeline clause, the
-   restorer clause for the patched code. *)
-Theorem C05_passes_partial : forall extras G, valid_grammar G ->
-  pass_preserves extras 0 G /\ pass_preserves extras 2 G /\ pass_preserves extras 3 G /\ pass_preserves extras 4 G /\
-  (lister_applies G = false -> pass_preserves extras 5 G).
+(* Each AST pass on its own, for every valid grammar and both feature sets; the lister outside its class (where the
+   rewrite fires it is refuted above). *)
+Theorem C05_passes : forall extras G, valid_grammar G ->
+  pass_preserves extras 0 G /\ pass_preserves extras 1 G /\ pass_preserves extras 2 G /\ pass_preserves extras 3 G /\
+  pass_preserves extras 4 G /\ (lister_applies G = false -> pass_preserves extras 5 G).
 Proof.
-  intros extras G [VL VN]. split; [|split; [|split; [|split]]].
+  intros extras G V. pose proof V as [VL VN]. split; [|split; [|split; [|split; [|split]]]].
   - apply rotate_preserves.
+  - now apply skip_preserves.
   - apply unroll_preserves.
   - now apply concat_preserves.
   - apply factor_preserves.
   - apply list_preserves_outside_class.
 Qed.
+
+(* The composition rotate ; skip (map = the original rules) ; unroll ; concatenate ; factor ; list, rule by rule as
+   `optimize` chains them, for every valid grammar outside the decidable known class (the lister fires on the output of
+   the five passes before it). *)
+Theorem C05_pipeline_outside_lister_class : forall extras G, valid_grammar G -> lister_class extras G = false -> pipeline_preserves extras G.
+Proof. exact pipeline_preserves_outside_class. Qed.
 
 (* non-vacuity: the statement speaks about grammars on which the rewrites fire *)
 Example rotate_fires : apply_pass false 0 [{| rname := nm "r"; rty := RNormal; rexpr := ESeq (ESeq (EStr (nm "a")) (EStr (nm "b"))) (EStr (nm "a")) |}]
@@ -85,10 +91,16 @@ Proof. vm_compute. reflexivity. Qed.
 Example unroll_fires : apply_pass false 2 [{| rname := nm "r"; rty := RNormal; rexpr := ERepMinMax (EStr (nm "a")) 1 2 |}]
   = Some [{| rname := nm "r"; rty := RNormal; rexpr := ESeq (EStr (nm "a")) (EOpt (EStr (nm "a"))) |}].
 Proof. vm_compute. reflexivity. Qed.
+Example skip_fires : apply_pass false 1 [{| rname := nm "r"; rty := RAtomic; rexpr := ERep (ESeq (ENegPred (EChoice (EStr (nm "a")) (EIdent (nm "s")))) (EIdent (nm "ANY"))) |};
+                                       {| rname := nm "s"; rty := RNormal; rexpr := EStr (nm "b") |}]
+  = Some [{| rname := nm "r"; rty := RAtomic; rexpr := ESkip [nm "a"; nm "b"] |}; {| rname := nm "s"; rty := RNormal; rexpr := EStr (nm "b") |}].
+Proof. vm_compute. reflexivity. Qed.
 Example lister_G_is_valid : valid_grammar lister_G. Proof. exact lister_G_valid. Qed.
+Example lister_G_in_class : lister_class false lister_G = true. Proof. vm_compute. reflexivity. Qed.
 
 Print Assumptions C05_lister_refuted.
 Print Assumptions C05_statement_refuted.
 Print Assumptions C05_restorer_pop_all_refuted.
 Print Assumptions C05_restorer_map_refuted.
-Print Assumptions C05_passes_partial.
+Print Assumptions C05_passes.
+Print Assumptions C05_pipeline_outside_lister_class.
